@@ -89,6 +89,10 @@ def containers(rng, pk, grid, thorough, keys=b""):
         out.append((f"pcapng-{tag}-interfaces-{how}", ns.pcapng_multi(pk, ifs, pick, le=le, obsolete_pb=rng.random() < 0.3), False))
         out.append((f"pcapng-{tag}-interfaces-described-late", ns.pcapng_multi(pk, ifs, pick, le=le, late_idb=True), False))
         out.append((f"pcapng-{tag}-sections", ns.pcapng_multi(pk, ifs if rng.random() < 0.7 else ifs[:1], pick, le=le, sections=rng.choice([2, 3]), late_idb=rng.random() < 0.3), False))
+        # an idle interface of another link type (tun0 = raw IP, 'any' = Linux cooked, loopback = BSD null) described first; the traffic is on the Ethernet interface behind it
+        idle_lt = rng.choice([101, 113, 0, 276, 12])
+        out.append((f"pcapng-{tag}-idle-first-interface", ns.pcapng_multi(pk, [(rng.choice([None, 9]), None), (rng.choice([None, 6]), None)], lambda n: 1, le=le,
+                                                                        linktypes=[idle_lt, 1], late_idb=rng.random() < 0.3), False))
         out.append((f"pcap-legacy-{tag}-us", ns.pcap_legacy(pk, le=le), True))
         out.append((f"pcap-legacy-{tag}-ns", ns.pcap_legacy(pk, le=le, nano=True), True))
     return out
